@@ -328,8 +328,15 @@ func init() {
 	// ---------------- sync/atomic ----------------
 	for _, ty := range []string{"Int32", "Int64", "Uint32", "Uint64"} {
 		ty := ty
-		reg("sync/atomic.Load"+ty, func(fr *frame, a []value) value { fr.ex().yieldK(false, true); return *(a[0].(*value)) })
-		reg("sync/atomic.Store"+ty, func(fr *frame, a []value) value { fr.ex().yield(); *(a[0].(*value)) = a[1]; return nil })
+		reg("sync/atomic.Load"+ty, func(fr *frame, a []value) value {
+			fr.ex().yieldK(false, fr.ex().cfg.bounds["noatomicpreempt"] != 1)
+			return *(a[0].(*value))
+		})
+		reg("sync/atomic.Store"+ty, func(fr *frame, a []value) value {
+			fr.ex().yieldK(true, fr.ex().cfg.bounds["noatomicpreempt"] != 1)
+			*(a[0].(*value)) = a[1]
+			return nil
+		})
 		reg("sync/atomic.Add"+ty, func(fr *frame, a []value) value {
 			fr.ex().yield()
 			p := a[0].(*value)
@@ -448,6 +455,41 @@ func init() {
 		}
 		return false
 	}
+	errorsAs := func(fr *frame, a []value) value {
+		err, target := a[0].(iface), a[1].(iface)
+		if err.t == nil || target.t == nil {
+			return false
+		}
+		pt, ok := target.t.Underlying().(*types.Pointer)
+		if !ok {
+			panic("errors.As: target must be a non-nil pointer")
+		}
+		T := pt.Elem()
+		cell := target.v.(*value)
+		for depth := 0; depth < 32; depth++ {
+			if it, isIface := T.Underlying().(*types.Interface); isIface {
+				if types.Implements(err.t, it) {
+					*cell = err
+					return true
+				}
+			} else if types.Identical(err.t, T) {
+				*cell = copyVal(T, err.v)
+				return true
+			}
+			m := methodOf(fr, err, "Unwrap")
+			if m == nil || m.Signature.Results().Len() != 1 {
+				return false
+			}
+			nx, ok := call(fr.i, fr, token.NoPos, m, []value{err.v}).(iface)
+			if !ok || nx.t == nil {
+				return false
+			}
+			err = nx
+		}
+		return false
+	}
+	reg("errors.As", errorsAs)
+	reg("github.com/friendsofgo/errors.As", errorsAs)
 	reg("errors.Is", errorsIs)
 	reg("github.com/friendsofgo/errors.Is", errorsIs)
 	reg("errors.New", func(fr *frame, a []value) value { return mkError(fr, a[0]) })
